@@ -46,6 +46,47 @@ pub enum PeerOp {
     /// well-formed packet with explicit fields relative to the connection
     /// (type, seq offset from next_seq, ack offset from highest seen, wnd, sack, conn-id delta, payload len)
     Crafted { ptype: u8, dseq: i16, dack: i16, wnd: u32, sack: Option<Vec<u8>>, did: i8, len: u16 },
+    /// a Crafted packet whose encoding is then damaged: bytes overwritten, first-extension byte forced,
+    /// junk appended, truncated
+    Mangled { base: Box<PeerOp>, flips: Vec<(u16, u8)>, first_ext: Option<u8>, append: Vec<u8>, trunc: Option<u16> },
+    /// datagram from another source address: `src` 0..=3 an unbound address, 4 the bystander socket's
+    /// address (spoofed; never with the bystander connection's own id)
+    Foreign { src: u8, pkt: ForeignPkt },
+}
+
+#[derive(Clone, Debug, Serialize, Deserialize, PartialEq)]
+pub enum ForeignPkt {
+    Raw(Vec<u8>),
+    /// well-formed header; id_sel 0: `id` as is, 1: the hostile connection's id (+id as delta),
+    /// 2: the bystander connection's receive id at the socket + a non-zero delta derived from `id`
+    Hdr { ptype: u8, id_sel: u8, id: u16, seq: u16, ack: u16, wnd: u32, sack: Option<Vec<u8>>, len: u16 },
+}
+
+/// A legitimate connection between the socket under test and a second real socket, running
+/// while the scripted peer misbehaves, plus a fresh connection attempt afterwards.
+#[derive(Clone, Debug, Serialize, Deserialize)]
+pub struct Bystander {
+    /// the second socket connects to the socket under test (else the other way round)
+    pub incoming: bool,
+    pub n_to_sock: u32,
+    pub n_from_sock: u32,
+    pub key: u64,
+    /// start this long after the handshake of the scripted peer
+    pub start_ms: u32,
+    pub probe: bool,
+    pub rnd: Vec<u16>,
+}
+
+#[derive(Clone, Debug, Default)]
+pub struct ByResult {
+    pub connect: super::mc::CallOut,
+    pub connector: super::mc::StreamOut,
+    pub acceptor: Option<super::mc::StreamOut>,
+    /// streams the accept loop of the bystander's listener received that were not the bystander's
+    pub stray_accepts: u32,
+    pub probe_connect: super::mc::CallOut,
+    pub probe_token_seen: bool,
+    pub accept_err: Option<String>,
 }
 
 #[derive(Clone, Debug, Serialize, Deserialize, PartialEq)]
@@ -77,6 +118,8 @@ pub struct SpCase {
     /// last advertised by the socket or the reassembly slot capacity
     #[serde(default)]
     pub discipline: bool,
+    #[serde(default)]
+    pub bystander: Option<Bystander>,
 }
 
 #[derive(Clone, Debug)]
@@ -125,6 +168,8 @@ pub struct SpResult {
     pub skipped_data_ops: u32,
     /// log indices of peer data packets in the order sent: (log idx, seq)
     pub peer_data_sent: Vec<(usize, u16)>,
+    pub by: Option<ByResult>,
+    pub by_addr: Option<SocketAddr>,
 }
 
 /// payload of the peer's seq `seq`: keyed by (key, seq, index) so that the expected stream is
@@ -366,6 +411,80 @@ pub fn run(case: &SpCase, trace: bool) -> SpResult {
         try_take_stream(&mut w_tx, &mut r_tx, &mut res);
         res.steps_from_idx = net.log_len();
 
+        // ---- bystander: a second real socket with a legitimate connection to the socket under test
+        let by_addr = addr(case.sock.v6, 2);
+        let by_res: Arc<Mutex<ByResult>> = Arc::new(Mutex::new(ByResult::default()));
+        let mut by_sock: Option<Arc<super::Sock>> = None;
+        if let Some(by) = &case.bystander {
+            use super::mc::{CallOut, TOKEN_LEN, exchange, token};
+            let cfg = SockCfg { v6: case.sock.v6, rnd: by.rnd.clone(), max_live: 64, ..SockCfg::default() };
+            let (bsock, _btoken) = new_socket(&net, 2, &cfg);
+            std::mem::forget(_btoken);
+            by_sock = Some(bsock.clone());
+            res.by_addr = Some(by_addr);
+            let (listener, connector, listener_peer, connect_to) = if by.incoming { (sock.clone(), bsock.clone(), by_addr, sock_addr) } else { (bsock.clone(), sock.clone(), sock_addr, by_addr) };
+            let by2 = by.clone();
+            let r2 = by_res.clone();
+            // accept loop: whatever the listener hands out is inspected; only the stream from the right
+            // address that delivers the right token is the bystander's (or the probe's)
+            tokio::spawn(async move {
+                loop {
+                    let stream = match listener.accept().await {
+                        Ok(s) => s,
+                        Err(e) => {
+                            r2.lock().accept_err = Some(e.to_string());
+                            return;
+                        }
+                    };
+                    let r3 = r2.clone();
+                    let by3 = by2.clone();
+                    tokio::spawn(async move {
+                        use tokio::io::AsyncReadExt;
+                        let remote = stream.remote_addr();
+                        let (mut r, w) = stream.split();
+                        let mut tok = [0u8; TOKEN_LEN];
+                        let got = tokio::time::timeout(Duration::from_millis(400), r.read_exact(&mut tok)).await;
+                        let ok = matches!(got, Ok(Ok(_)));
+                        if ok && remote == listener_peer && tok == token(0, by3.key) {
+                            r3.lock().acceptor = Some(Default::default());
+                            let r4 = r3.clone();
+                            let (n_w, n_r) = if by3.incoming { (by3.n_from_sock, by3.n_to_sock) } else { (by3.n_to_sock, by3.n_from_sock) };
+                            exchange((r, w), None, Stream::new(by3.key, 1), n_w, Stream::new(by3.key, 0), n_r, 20, t0, move |f| f(r4.lock().acceptor.as_mut().unwrap())).await;
+                        } else if ok && remote == listener_peer && tok == token(1, by3.key) {
+                            r3.lock().probe_token_seen = true;
+                        } else {
+                            r3.lock().stray_accepts += 1;
+                        }
+                    });
+                }
+            });
+            let by2 = by.clone();
+            let r2 = by_res.clone();
+            let connector2 = connector.clone();
+            tokio::spawn(async move {
+                tokio::time::sleep(Duration::from_millis(by2.start_ms as u64)).await;
+                r2.lock().connect = CallOut::Pending;
+                match connector2.connect(connect_to).await {
+                    Ok(stream) => {
+                        r2.lock().connect = CallOut::Ok((tokio::time::Instant::now() - t0).as_micros() as u64);
+                        let r4 = r2.clone();
+                        let (n_w, n_r) = if by2.incoming { (by2.n_to_sock, by2.n_from_sock) } else { (by2.n_from_sock, by2.n_to_sock) };
+                        exchange(stream.split(), Some(token(0, by2.key)), Stream::new(by2.key, 0), n_w, Stream::new(by2.key, 1), n_r, 20, t0, move |f| f(&mut r4.lock().connector)).await;
+                    }
+                    Err(e) => r2.lock().connect = CallOut::Err((tokio::time::Instant::now() - t0).as_micros() as u64, e.to_string()),
+                }
+            });
+        }
+        let by_recv_id_at_sock = |net: &Net| -> Option<u16> {
+            net.with_log(|log| {
+                log.iter().find_map(|r| {
+                    let p = r.pkt.as_ref()?;
+                    if !r.from_stack || p.ptype != refparse::ST_SYN { return None; }
+                    if r.src == by_addr && r.dst == sock_addr { Some(p.conn_id.wrapping_add(1)) } else if r.src == sock_addr && r.dst == by_addr { Some(p.conn_id) } else { None }
+                })
+            })
+        };
+
         // ---- steps
         let mut writer_dropped = false;
         for step in &case.steps {
@@ -520,6 +639,73 @@ pub fn run(case: &SpCase, trace: bool) -> SpResult {
                         }
                     }
                     PeerOp::Raw(b) => peer.send_raw(b.clone()),
+                    PeerOp::Mangled { base, flips, first_ext, append, trunc } => {
+                        if let PeerOp::Crafted { ptype, dseq, dack, wnd, sack, did, len } = &**base {
+                            let mut p = peer.base(*ptype % 5);
+                            p.seq = peer.next_seq.wrapping_add(*dseq as u16);
+                            p.ack = peer.ack_base(expected_sock_first).wrapping_add(*dack as u16);
+                            p.wnd = *wnd;
+                            p.conn_id = p.conn_id.wrapping_add(*did as u16);
+                            if let Some(s) = sack {
+                                p.exts.push((1, s.clone()));
+                            }
+                            if *len > 0 {
+                                p.payload = peer_payload(peer.key ^ 0xbad, p.seq, *len as usize);
+                            }
+                            let mut b = refparse::encode(&p);
+                            if let Some(e) = first_ext {
+                                if b.len() > 1 { b[1] = *e; }
+                            }
+                            for (pos, val) in flips {
+                                if !b.is_empty() { let i = *pos as usize % b.len(); b[i] = *val; }
+                            }
+                            b.extend_from_slice(append);
+                            if let Some(t) = trunc {
+                                b.truncate(*t as usize);
+                            }
+                            peer.send_raw(b);
+                        }
+                    }
+                    PeerOp::Foreign { src, pkt } => {
+                        let from = if *src >= 4 && case.bystander.is_some() { by_addr } else { addr(case.sock.v6, 100 + (*src % 4) as usize) };
+                        let bytes = match pkt {
+                            ForeignPkt::Raw(b) => Some(b.clone()),
+                            ForeignPkt::Hdr { ptype, id_sel, id, seq, ack, wnd, sack, len } => {
+                                let by_id = by_recv_id_at_sock(&net);
+                                let conn_id = match (*id_sel % 3, by_id) {
+                                    (1, _) => Some(peer.id_to_sock.wrapping_add(*id % 4)),
+                                    (2, Some(b)) => {
+                                        // never the bystander connection's own id, nor the ids the fresh connection
+                                        // afterwards will use (the next ones: +1..+3) — those would be aimed at them
+                                        let d = [9u16, 10, 32, 0xffff, 0xfffe, 0xfffd][(*id % 6) as usize];
+                                        Some(b.wrapping_add(d))
+                                    }
+                                    _ => {
+                                        // a random id from the bystander's address must not be the bystander's own by accident
+                                        if from == by_addr && by_id == Some(*id) { None } else { Some(*id) }
+                                    }
+                                };
+                                // spoofed datagrams never carry the bystander connection's own id (that would be aimed at it);
+                                // before the bystander's SYN is on the wire its id is unknown: they wait
+                                let conn_id = match (conn_id, by_id) {
+                                    (Some(c), Some(b)) if from == by_addr && c.wrapping_sub(b) <= 3 => None,
+                                    (c, _) => c,
+                                };
+                                if from == by_addr && by_id.is_none() { None } else {
+                                    conn_id.map(|conn_id| {
+                                        let mut p = RefPacket { ptype: *ptype % 5, version: 1, conn_id, ts: net.now_us() as u32, ts_diff: 0, wnd: *wnd, seq: *seq, ack: *ack, exts: vec![], payload: vec![] };
+                                        if let Some(s) = sack { p.exts.push((1, s.clone())); }
+                                        if *len > 0 { p.payload = peer_payload(0xf00, *seq, *len as usize); }
+                                        refparse::encode(&p)
+                                    })
+                                }
+                            }
+                        };
+                        match bytes {
+                            Some(b) => net.inject(from, sock_addr, b, 0),
+                            None => res.skipped_data_ops += 1,
+                        }
+                    }
                     PeerOp::Crafted { ptype, dseq, dack, wnd, sack, did, len } => {
                         let mut p = peer.base(*ptype % 5);
                         p.seq = peer.next_seq.wrapping_add(*dseq as u16);
@@ -541,6 +727,27 @@ pub fn run(case: &SpCase, trace: bool) -> SpResult {
         peer.observe();
         try_take_stream(&mut w_tx, &mut r_tx, &mut res);
         res.t_steps_end_us = net.now_us();
+        if let (Some(by), Some(bsock)) = (&case.bystander, &by_sock) {
+            if by.probe {
+                // a fresh connection in the bystander's direction: the accept/connect service still works
+                use super::mc::{CallOut, token};
+                let (connector, connect_to) = if by.incoming { (bsock.clone(), sock_addr) } else { (sock.clone(), by_addr) };
+                let r2 = by_res.clone();
+                let key = by.key;
+                tokio::spawn(async move {
+                    use tokio::io::AsyncWriteExt;
+                    r2.lock().probe_connect = CallOut::Pending;
+                    match connector.connect(connect_to).await {
+                        Ok(mut stream) => {
+                            r2.lock().probe_connect = CallOut::Ok((tokio::time::Instant::now() - t0).as_micros() as u64);
+                            let _ = stream.write_all(&token(1, key)).await;
+                            tokio::time::sleep(Duration::from_millis(200)).await;
+                        }
+                        Err(e) => r2.lock().probe_connect = CallOut::Err((tokio::time::Instant::now() - t0).as_micros() as u64, e.to_string()),
+                    }
+                });
+            }
+        }
         if case.linger_ms > 0 {
             tokio::time::sleep(Duration::from_millis(case.linger_ms as u64)).await;
         }
@@ -567,6 +774,9 @@ pub fn run(case: &SpCase, trace: bool) -> SpResult {
         res.preds = net.predicates();
         res.wedge = take_wedge();
         res.conn_events = super::take_conn_events();
+        if case.bystander.is_some() {
+            res.by = Some(by_res.lock().clone());
+        }
         // keep the command channels alive until here so that the app tasks do not end early
         drop((w_tx, r_tx));
         res
